@@ -1,3 +1,757 @@
-import MCHap.Model.HapCalling
+import MCHap.Proofs.TraceHapCalling
+import MCHap.Properties.C11
+
+/-!
+# C13 — haplotype reporting threshold and unknown-allele semantics in `mchap assemble`
+
+Property theorems over `MCHap/Model/HapCalling.lean` (model of `call_posterior_haplotypes`, the label map /
+GT / AFP / AOP / GP assignment of `call_sample_genotypes`, `_genotype_as_alleles`,
+`_genotype_posterior_as_array`).
+
+`posts` = the per-sample posterior distributions, `thr` = `--haplotype-posterior-threshold`, `nBase` = number of
+SNVs of the locus; `hapsOf post` = the haplotypes the posterior of a sample mentions; `occurrence post h` = the
+posterior probability that `h` occurs in the sample at any copy number.
+-/
 namespace MCHap.C13
+open MCHap MCHap.Trace MCHap.HapCalling
+set_option linter.unusedSectionVars false
+
+/-! ### the reported list: reference first, then the ALT alleles -/
+
+theorem table_alts_mem {thr : ℚ} {posts : List Post} {h : Hap} {v : ℚ}
+    (hm : (h, v) ∈ (accumulate thr posts).filter (fun hv => !isRef hv.1)) :
+    isRef h = false ∧ v = summedDosage thr posts h ∧
+      ∃ post ∈ posts, h ∈ hapsOf post ∧ thr ≤ occurrence post h := by
+  rw [List.mem_filter] at hm
+  obtain ⟨h1, h2⟩ := mem_accumulate hm.1
+  exact ⟨by simpa using hm.2, h1, h2⟩
+
+/-- the sorted table starts with the reference entry; the rest is a permutation of the non-reference entries -/
+theorem sorted_table (thr : ℚ) (posts : List Post) (nBase : ℕ) :
+    ∃ rest, sortDesc (valueTable thr posts nBase)
+        = (List.replicate nBase 0,
+            maxValue (((accumulate thr posts).filter (fun hv => !isRef hv.1)).map (·.2)) + 1) :: rest ∧
+      rest.Perm ((accumulate thr posts).filter (fun hv => !isRef hv.1)) ∧
+      rest.Pairwise (fun a b => b.2 ≤ a.2) := by
+  set alts := (accumulate thr posts).filter (fun hv => !isRef hv.1) with halts
+  set re : Hap × ℚ := (List.replicate nBase 0, maxValue (alts.map (·.2)) + 1) with hre
+  have htable : valueTable thr posts nBase = alts ++ [re] := rfl
+  have hperm := sortDesc_perm (valueTable thr posts nBase)
+  have hsorted := sortDesc_pairwise (valueTable thr posts nBase)
+  rw [htable] at hperm hsorted
+  have hlt : ∀ a ∈ alts, a.2 < re.2 := by
+    intro a ha
+    have : a.2 ≤ maxValue (alts.map (·.2)) := le_maxValue (List.mem_map.mpr ⟨a, ha, rfl⟩)
+    simp only [hre]; linarith
+  cases hs : sortDesc (alts ++ [re]) with
+  | nil =>
+    rw [hs] at hperm
+    have := hperm.length_eq
+    simp at this
+  | cons x rest =>
+    rw [hs] at hperm hsorted
+    have hx : x ∈ alts ++ [re] := hperm.subset (by simp)
+    have hre_in : re ∈ x :: rest := hperm.symm.subset (by simp)
+    have hxe : x = re := by
+      rcases List.mem_append.mp hx with hxa | hxr
+      · exfalso
+        rcases List.mem_cons.mp hre_in with e | hr
+        · rw [← e] at hxa
+          exact absurd (hlt re hxa) (lt_irrefl _)
+        · have h1 := (List.pairwise_cons.mp hsorted).1 re hr
+          have h2 := hlt x hxa
+          linarith
+      · simpa using hxr
+    subst hxe
+    refine ⟨rest, by rw [htable, hs], ?_, (List.pairwise_cons.mp hsorted).2⟩
+    have hp2 : (re :: rest).Perm (re :: alts) := hperm.trans List.perm_append_comm
+    exact hp2.cons_inv
+
+/-- **the reference is always allele 0** -/
+theorem ref_first (thr : ℚ) (posts : List Post) (nBase : ℕ) :
+    (callPosteriorHaplotypes thr posts nBase).1.head? = some (List.replicate nBase 0) := by
+  obtain ⟨rest, hs, _, _⟩ := sorted_table thr posts nBase
+  unfold callPosteriorHaplotypes
+  simp only [hs, List.map_cons, List.head?_cons]
+
+/-- **ALT iff**: a haplotype is listed after the reference exactly when it is not the reference (not all-zero) and
+    its occurrence probability reaches the threshold in at least one sample whose posterior mentions it -/
+theorem alt_iff (thr : ℚ) (posts : List Post) (nBase : ℕ) (h : Hap) :
+    h ∈ (callPosteriorHaplotypes thr posts nBase).1.tail ↔
+      isRef h = false ∧ ∃ post ∈ posts, h ∈ hapsOf post ∧ thr ≤ occurrence post h := by
+  obtain ⟨rest, hs, hperm, _⟩ := sorted_table thr posts nBase
+  unfold callPosteriorHaplotypes
+  simp only [hs, List.map_cons, List.tail_cons]
+  rw [(hperm.map (·.1)).mem_iff, List.mem_map]
+  constructor
+  · rintro ⟨⟨h', v⟩, hm, e⟩
+    simp only at e; subst e
+    obtain ⟨h1, _, h3⟩ := table_alts_mem hm
+    exact ⟨h1, h3⟩
+  · rintro ⟨h1, h3⟩
+    have hk := (mem_accumulate_keys thr posts h).mpr h3
+    obtain ⟨⟨h', v⟩, hm, e⟩ := List.mem_map.mp hk
+    simp only at e; subst e
+    exact ⟨(h', v), List.mem_filter.mpr ⟨hm, by simp [h1]⟩, rfl⟩
+
+/-- for haplotypes of the locus (`nBase` positions) "not all-zero" is "different from the reference" -/
+theorem alt_iff_ne_ref (thr : ℚ) (posts : List Post) (nBase : ℕ) (h : Hap) (hl : h.length = nBase) :
+    h ∈ (callPosteriorHaplotypes thr posts nBase).1.tail ↔
+      h ≠ List.replicate nBase 0 ∧ ∃ post ∈ posts, h ∈ hapsOf post ∧ thr ≤ occurrence post h := by
+  rw [alt_iff]
+  have : isRef h = false ↔ h ≠ List.replicate nBase 0 := by
+    rw [← hl, Ne, ← isRef_iff]; simp
+  rw [this]
+
+/-- the listed haplotypes are pairwise distinct -/
+theorem alts_nodup (thr : ℚ) (posts : List Post) (nBase : ℕ) :
+    (callPosteriorHaplotypes thr posts nBase).1.Nodup := by
+  obtain ⟨rest, hs, hperm, _⟩ := sorted_table thr posts nBase
+  unfold callPosteriorHaplotypes
+  simp only [hs, List.map_cons]
+  rw [List.nodup_cons]
+  constructor
+  · intro hm
+    rw [(hperm.map (·.1)).mem_iff] at hm
+    obtain ⟨⟨h', v⟩, hm', e⟩ := List.mem_map.mp hm
+    simp only at e
+    have := (table_alts_mem hm').1
+    rw [e, isRef_replicate] at this
+    exact absurd this (by simp)
+  · rw [(hperm.map (·.1)).nodup_iff]
+    have : (((accumulate thr posts).filter (fun hv => !isRef hv.1)).map (·.1)).Sublist
+        ((accumulate thr posts).map (·.1)) := (List.filter_sublist).map _
+    exact this.nodup (accumulate_keys_nodup thr posts)
+
+/-- **REFMASKED iff** the reference (an all-zero haplotype) met the criterion in no sample -/
+theorem refmasked_iff (thr : ℚ) (posts : List Post) (nBase : ℕ) :
+    refMasked thr posts nBase = true ↔
+      ¬ ∃ post ∈ posts, ∃ h ∈ hapsOf post, isRef h = true ∧ thr ≤ occurrence post h := by
+  unfold refMasked callPosteriorHaplotypes
+  simp only [Bool.not_eq_true', List.any_eq_false]
+  constructor
+  · intro hall
+    rintro ⟨post, hp, h, hh, hr, ho⟩
+    have hk := (mem_accumulate_keys thr posts h).mpr ⟨post, hp, hh, ho⟩
+    obtain ⟨⟨h', v⟩, hm, e⟩ := List.mem_map.mp hk
+    simp only at e; subst e
+    exact hall _ hm hr
+  · intro hne hv hm hr
+    apply hne
+    obtain ⟨_, post, hp, hh, ho⟩ := mem_accumulate (h := hv.1) (v := hv.2) hm
+    exact ⟨post, hp, hv.1, hh, hr, ho⟩
+
+/-- **ALT order**: the ALT alleles are listed by non-increasing posterior dosage summed over the samples in which
+    they met the threshold (ties in any order) -/
+theorem alts_sorted_by_summed_dosage (thr : ℚ) (posts : List Post) (nBase : ℕ) :
+    (callPosteriorHaplotypes thr posts nBase).1.tail.Pairwise
+      (fun a b => summedDosage thr posts b ≤ summedDosage thr posts a) := by
+  obtain ⟨rest, hs, hperm, hpw⟩ := sorted_table thr posts nBase
+  unfold callPosteriorHaplotypes
+  simp only [hs, List.map_cons, List.tail_cons]
+  rw [List.pairwise_map]
+  have hval : ∀ a ∈ rest, a.2 = summedDosage thr posts a.1 := by
+    intro a ha
+    exact (table_alts_mem (h := a.1) (v := a.2) (hperm.subset ha)).2.1
+  have : rest.Pairwise (fun a b => b.2 ≤ a.2 ∧ a ∈ rest ∧ b ∈ rest) := by
+    rw [List.pairwise_iff_getElem] at hpw ⊢
+    intro i j hi hj hij
+    exact ⟨hpw i j hi hj hij, List.getElem_mem hi, List.getElem_mem hj⟩
+  exact this.imp (fun {a b} ⟨hle, ha, hb⟩ => by rw [← hval a ha, ← hval b hb]; exact hle)
+
+/-! ### GT: labels, `.` and allele 0 -/
+
+theorem insertInt_perm (x : ℤ) : ∀ l, (insertInt x l).Perm (x :: l)
+  | [] => by simp [insertInt]
+  | y :: t => by
+    unfold insertInt
+    split
+    · exact List.Perm.refl _
+    · exact ((insertInt_perm x t).cons y).trans (List.Perm.swap x y t)
+
+theorem sortInt_perm : ∀ l, (sortInt l).Perm l
+  | [] => by simp [sortInt]
+  | x :: t => by
+    show (insertInt x (sortInt t)).Perm (x :: t)
+    exact (insertInt_perm x _).trans ((sortInt_perm t).cons x)
+
+theorem insertInt_sorted (x : ℤ) : ∀ l, l.Pairwise (· ≤ ·) → (insertInt x l).Pairwise (· ≤ ·)
+  | [], _ => by simp [insertInt]
+  | y :: t, h => by
+    unfold insertInt
+    split
+    · rename_i hxy
+      rw [List.pairwise_cons] at h ⊢
+      refine ⟨?_, List.pairwise_cons.mpr h⟩
+      intro z hz
+      rcases List.mem_cons.mp hz with rfl | hz
+      · exact hxy
+      · exact le_trans hxy (h.1 z hz)
+    · rename_i hxy
+      rw [List.pairwise_cons] at h ⊢
+      refine ⟨?_, insertInt_sorted x t h.2⟩
+      intro z hz
+      rcases List.mem_cons.mp ((insertInt_perm x t).subset hz) with rfl | hz
+      · omega
+      · exact h.1 z hz
+
+theorem sortInt_sorted : ∀ l, (sortInt l).Pairwise (· ≤ ·)
+  | [] => by simp [sortInt]
+  | x :: t => by
+    show (insertInt x (sortInt t)).Pairwise _
+    exact insertInt_sorted x _ (sortInt_sorted t)
+
+theorem filter_split_perm (l : List ℤ) :
+    (l.filter (fun x => decide (0 ≤ x)) ++ l.filter (fun x => decide (x < 0))).Perm l := by
+  induction l with
+  | nil => simp
+  | cons a t ih =>
+    by_cases h : 0 ≤ a
+    · have h' : ¬ a < 0 := by omega
+      simp only [List.filter, h, h', decide_true, decide_false, List.cons_append]
+      exact ih.cons a
+    · have h' : a < 0 := by omega
+      simp only [List.filter, h, h', decide_true, decide_false]
+      exact (List.perm_middle).trans (ih.cons a)
+
+/-- **GT is the multiset of the labels of the called genotype's haplotypes** (−1 = `.` for the unlabelled) -/
+theorem gt_perm_labels (g : List Hap) (labels : List (Hap × ℕ)) :
+    (genotypeAsAlleles g labels).Perm (g.map (lookupLabel labels)) := by
+  unfold genotypeAsAlleles
+  exact (filter_split_perm _).trans (sortInt_perm _)
+
+theorem lookupLabel_neg_iff (labels : List (Hap × ℕ)) (h : Hap) :
+    lookupLabel labels h = -1 ↔ h ∉ labels.map (·.1) := by
+  unfold lookupLabel
+  cases hf : labels.find? (fun hi => decide (hi.1 = h)) with
+  | none =>
+    simp only [true_iff]
+    intro hm
+    obtain ⟨hi, hhi, e⟩ := List.mem_map.mp hm
+    have := List.find?_eq_none.mp hf hi hhi
+    simp [e] at this
+  | some hi =>
+    have h1 := List.mem_of_find?_eq_some hf
+    have h2 := List.find?_some hf
+    simp only [decide_eq_true_eq] at h2
+    show ((hi.2 : ℕ) : ℤ) = -1 ↔ _
+    constructor
+    · intro e; omega
+    · intro hn
+      exact absurd (List.mem_map.mpr ⟨hi, h1, h2⟩) hn
+
+theorem lookupLabel_nonneg_or (labels : List (Hap × ℕ)) (h : Hap) :
+    lookupLabel labels h = -1 ∨ ∃ i : ℕ, lookupLabel labels h = (i : ℤ) ∧ (h, i) ∈ labels := by
+  unfold lookupLabel
+  cases hf : labels.find? (fun hi => decide (hi.1 = h)) with
+  | none => exact Or.inl rfl
+  | some hi =>
+    right
+    have h1 := List.mem_of_find?_eq_some hf
+    have h2 := List.find?_some hf
+    simp only [decide_eq_true_eq] at h2
+    exact ⟨hi.2, rfl, by rw [← h2]; exact h1⟩
+
+/-- **`.` exactly for the excluded haplotypes**: the number of `.` in GT is the number of haplotypes (with
+    multiplicity) of the called genotype that have no label, i.e. were not listed -/
+theorem gt_dot_iff_excluded (g : List Hap) (labels : List (Hap × ℕ)) :
+    (genotypeAsAlleles g labels).count (-1) = g.countP (fun h => decide (h ∉ labels.map (·.1))) ∧
+    ((-1 : ℤ) ∈ genotypeAsAlleles g labels ↔ ∃ h ∈ g, h ∉ labels.map (·.1)) := by
+  have hp := gt_perm_labels g labels
+  have hcount : (g.map (lookupLabel labels)).count (-1) = g.countP (fun h => decide (h ∉ labels.map (·.1))) := by
+    rw [List.count_eq_countP, List.countP_map]
+    apply List.countP_congr
+    intro h _
+    simp only [Function.comp_def, beq_iff_eq, decide_eq_true_eq]
+    exact lookupLabel_neg_iff labels h
+  refine ⟨by rw [hp.count_eq, hcount], ?_⟩
+  rw [hp.mem_iff, List.mem_map]
+  constructor
+  · rintro ⟨h, hh, e⟩; exact ⟨h, hh, (lookupLabel_neg_iff labels h).mp e⟩
+  · rintro ⟨h, hh, e⟩; exact ⟨h, hh, (lookupLabel_neg_iff labels h).mpr e⟩
+
+/-- GT is VCF-sorted: ascending allele numbers, then the `.` entries -/
+theorem gt_sorted_dots_last (g : List Hap) (labels : List (Hap × ℕ)) :
+    ∃ called dots, genotypeAsAlleles g labels = called ++ dots ∧ called.Pairwise (· ≤ ·) ∧
+      (∀ x ∈ called, 0 ≤ x) ∧ ∀ x ∈ dots, x = -1 := by
+  refine ⟨_, _, rfl, (sortInt_sorted _).sublist List.filter_sublist, ?_, ?_⟩
+  · intro x hx
+    simpa using (List.mem_filter.mp hx).2
+  · intro x hx
+    obtain ⟨hm, hneg⟩ := List.mem_filter.mp hx
+    have hm' := (sortInt_perm _).subset hm
+    obtain ⟨h, _, rfl⟩ := List.mem_map.mp hm'
+    rcases lookupLabel_nonneg_or labels h with e | ⟨i, e, _⟩
+    · exact e
+    · rw [e] at hneg; simp at hneg; omega
+
+/-- labels of a masked record are `≥ 1` -/
+theorem labelsOf_masked_pos (haps : List Hap) (h : Hap) (i : ℕ) (hm : (h, i) ∈ labelsOf haps false) : 1 ≤ i := by
+  unfold labelsOf at hm
+  simp only [Bool.false_eq_true, if_false] at hm
+  cases haps with
+  | nil => simp at hm
+  | cons x t =>
+    rw [List.zipIdx_cons, List.drop_one, List.tail_cons] at hm
+    exact (List.mem_zipIdx_iff_le_and_getElem?_sub.mp hm).1
+
+/-- **no GT uses allele 0 when the reference is masked** -/
+theorem no_gt_zero_when_masked (g : List Hap) (haps : List Hap) :
+    (0 : ℤ) ∉ genotypeAsAlleles g (labelsOf haps false) := by
+  intro hm
+  have := (gt_perm_labels g (labelsOf haps false)).subset hm
+  obtain ⟨h, _, e⟩ := List.mem_map.mp this
+  rcases lookupLabel_nonneg_or (labelsOf haps false) h with e' | ⟨i, e', hi⟩
+  · rw [e'] at e; omega
+  · have := labelsOf_masked_pos haps h i hi
+    rw [e'] at e; omega
+
+/-- the labels are the positions in the reported list: a labelled haplotype is listed (and is not the first entry
+    when the reference is masked) -/
+theorem label_is_position (haps : List Hap) (rc : Bool) (h : Hap) (i : ℕ) (hm : (h, i) ∈ labelsOf haps rc) :
+    haps[i]? = some h ∧ (rc = false → 1 ≤ i) := by
+  constructor
+  · unfold labelsOf at hm
+    have hm' : (h, i) ∈ haps.zipIdx := by
+      split_ifs at hm
+      · exact hm
+      · exact List.mem_of_mem_drop hm
+    exact List.mk_mem_zipIdx_iff_getElem?.mp hm'
+  · intro hrc; subst hrc; exact labelsOf_masked_pos haps h i hm
+
+/-! ### AFP and GP sum to at most one -/
+
+theorem afpAop_eq (post : Post) (ploidy : ℕ) (haps : List Hap) :
+    afpAop post ploidy haps = haps.map (fun h =>
+      if h ∈ hapsOf post then (dosageWeight post h / (ploidy : ℚ), occurrence post h) else (0, 0)) := by
+  unfold afpAop
+  apply List.map_congr_left
+  intro h _
+  rw [alleleFrequencies_false]
+  by_cases hh : h ∈ hapsOf post
+  · rw [if_pos hh]
+    have hm : (h, dosageWeight post h / (ploidy : ℚ), occurrence post h)
+        ∈ (uniq (hapsOf post)).map (fun h => (h, dosageWeight post h / (ploidy : ℚ), occurrence post h)) :=
+      List.mem_map.mpr ⟨h, mem_uniq.mpr hh, rfl⟩
+    cases hf : ((uniq (hapsOf post)).map (fun h => (h, dosageWeight post h / (ploidy : ℚ), occurrence post h))).find?
+        (fun hwo => decide (hwo.1 = h)) with
+    | none =>
+      have := List.find?_eq_none.mp hf _ hm
+      simp at this
+    | some x =>
+      have h1 := List.mem_of_find?_eq_some hf
+      have h2 := List.find?_some hf
+      simp only [decide_eq_true_eq] at h2
+      obtain ⟨y, _, rfl⟩ := List.mem_map.mp h1
+      simp only at h2
+      subst h2
+      rfl
+  · rw [if_neg hh]
+    cases hf : ((uniq (hapsOf post)).map (fun h => (h, dosageWeight post h / (ploidy : ℚ), occurrence post h))).find?
+        (fun hwo => decide (hwo.1 = h)) with
+    | none => rfl
+    | some x =>
+      exfalso
+      have h1 := List.mem_of_find?_eq_some hf
+      have h2 := List.find?_some hf
+      simp only [decide_eq_true_eq] at h2
+      obtain ⟨y, hy, rfl⟩ := List.mem_map.mp h1
+      simp only at h2
+      subst h2
+      exact hh (mem_uniq.mp hy)
+
+/-- the AFP of a listed haplotype is its posterior frequency in the sample (0 when the sample's posterior does not
+    mention it), the AOP its occurrence probability -/
+theorem afp_entry (post : Post) (ploidy : ℕ) (haps : List Hap) (i : ℕ) (h : Hap) (hi : haps[i]? = some h) :
+    (afpAop post ploidy haps)[i]? = some (dosageWeight post h / (ploidy : ℚ), occurrence post h) := by
+  rw [afpAop_eq, List.getElem?_map, hi, Option.map_some]
+  by_cases hh : h ∈ hapsOf post
+  · rw [if_pos hh]
+  · rw [if_neg hh]
+    have hd : dosageWeight post h = 0 := by
+      unfold dosageWeight dosageOf
+      apply List.sum_eq_zero
+      intro x hx
+      obtain ⟨gp, hgp, rfl⟩ := List.mem_map.mp hx
+      have : h ∉ gp.1 := fun hm => hh (List.mem_flatMap.mpr ⟨gp, hgp, hm⟩)
+      rw [count_zero_generic this]; simp
+    have ho : occurrence post h = 0 := by
+      unfold occurrence occurrenceOf
+      apply List.sum_eq_zero
+      intro x hx
+      obtain ⟨gp, hgp, rfl⟩ := List.mem_map.mp hx
+      have hm := List.mem_filter.mp hgp
+      exact absurd (List.mem_flatMap.mpr ⟨gp, hm.1, by simpa using hm.2⟩) hh
+    rw [hd, ho]; simp
+
+
+/-- **the reported AFP sums to at most one** (at most the total posterior mass): the listed haplotypes are distinct,
+    every genotype has `ploidy` haplotypes, probabilities are non-negative -/
+theorem afp_sum_le_one (post : Post) (ploidy : ℕ) (haps : List Hap) (hp : 0 < ploidy) (hnd : haps.Nodup)
+    (hnn : ∀ gp ∈ post, 0 ≤ gp.2) (hlen : ∀ gp ∈ post, gp.1.length = ploidy) :
+    ((afpAop post ploidy haps).map (·.1)).sum ≤ (post.map (·.2)).sum := by
+  have hP : (0 : ℚ) < (ploidy : ℚ) := by exact_mod_cast hp
+  have hD : ∀ h, 0 ≤ dosageWeight post h := by
+    intro h
+    unfold dosageWeight
+    exact dosageOf_nonneg post h hnn
+  have h1 : ((afpAop post ploidy haps).map (·.1)).sum
+      ≤ (haps.map (fun h => dosageWeight post h / (ploidy : ℚ))).sum := by
+    rw [afpAop_eq, List.map_map]
+    apply List.sum_le_sum
+    intro h _
+    simp only [Function.comp_def]
+    split_ifs
+    · exact le_refl _
+    · exact div_nonneg (hD h) (le_of_lt hP)
+  refine le_trans h1 ?_
+  have h2 : (haps.map (fun h => dosageWeight post h / (ploidy : ℚ))).sum
+      = (haps.map (fun h => dosageWeight post h)).sum / (ploidy : ℚ) := by
+    rw [div_eq_mul_inv, ← List.sum_map_mul_right]
+    simp only [div_eq_mul_inv]
+  rw [h2, div_le_iff₀ hP]
+  unfold dosageWeight
+  exact sum_dosageOf_le post haps ploidy hnd hnn hlen
+
+/-! GP -/
+
+theorem gpPairs_cases (labels : List (Hap × ℕ)) (gp : List Hap × ℚ) :
+    gpPairs [gp] labels = [] ∨ ∃ i, gpPairs [gp] labels = [(i, gp.2)] := by
+  unfold gpPairs
+  simp only [List.filterMap_cons, List.filterMap_nil]
+  cases hs : sortInt (gp.1.map (lookupLabel labels)) with
+  | nil => left; rfl
+  | cons x t =>
+    by_cases hx : x < 0
+    · left; simp [hx]
+    · right; exact ⟨genotypeIndex ((x :: t).map Int.toNat), by simp [hx]⟩
+
+theorem gpPairs_cons (labels : List (Hap × ℕ)) (gp : List Hap × ℚ) (t : Post) :
+    gpPairs (gp :: t) labels = gpPairs [gp] labels ++ gpPairs t labels := by
+  unfold gpPairs
+  rw [← List.filterMap_append]
+  rfl
+
+theorem gpPairs_sum_le (labels : List (Hap × ℕ)) : ∀ (post : Post), (∀ gp ∈ post, 0 ≤ gp.2) →
+    (∀ iv ∈ gpPairs post labels, 0 ≤ iv.2) ∧ ((gpPairs post labels).map (·.2)).sum ≤ (post.map (·.2)).sum
+  | [], _ => by simp [gpPairs]
+  | gp :: t, hnn => by
+    obtain ⟨ih1, ih2⟩ := gpPairs_sum_le labels t (fun x hx => hnn x (List.mem_cons_of_mem _ hx))
+    have h0 : 0 ≤ gp.2 := hnn gp (by simp)
+    rw [gpPairs_cons]
+    rcases gpPairs_cases labels gp with e | ⟨i, e⟩
+    · rw [e]
+      simp only [List.nil_append, List.map_cons, List.sum_cons]
+      exact ⟨ih1, by linarith⟩
+    · rw [e]
+      simp only [List.cons_append, List.nil_append, List.map_cons, List.sum_cons, List.mem_cons]
+      refine ⟨?_, by linarith⟩
+      rintro iv (rfl | hiv)
+      · exact h0
+      · exact ih1 iv hiv
+
+/-- **the reported GP sums to at most one** (at most the total posterior mass) whenever the array can be built,
+    whatever allele count is used for its size -/
+theorem gp_sum_le_one (post : Post) (labels : List (Hap × ℕ)) (ploidy : ℕ) (nAlleles : Option ℕ) (arr : List ℚ)
+    (hnn : ∀ gp ∈ post, 0 ≤ gp.2) (h : genotypePosteriorAsArray post labels ploidy nAlleles = some arr) :
+    arr.length = cwr (nAlleles.getD labels.length) ploidy ∧ (∀ x ∈ arr, 0 ≤ x) ∧
+      arr.sum ≤ (post.map (·.2)).sum := by
+  unfold genotypePosteriorAsArray at h
+  rw [scatter_eq] at h
+  obtain ⟨hp1, hp2⟩ := gpPairs_sum_le labels post hnn
+  obtain ⟨h1, h2, h3⟩ := scatterFrom_sum_le _ _ _ arr (by
+    intro x hx; rw [List.eq_of_mem_replicate hx]) hp1 h
+  refine ⟨by simpa using h1, h2, ?_⟩
+  have : (List.replicate (cwr (nAlleles.getD labels.length) ploidy) (0 : ℚ)).sum = 0 := by simp
+  linarith
+
+/-! ### GP entries (uses the injectivity of the genotype index, C11) -/
+
+/-- the sorted allele numbers of a fully labelled genotype -/
+def labelledAlleles (labels : List (Hap × ℕ)) (g : List Hap) : List ℕ :=
+  (sortInt (g.map (lookupLabel labels))).map Int.toNat
+
+theorem lookupLabel_of_mem (labels : List (Hap × ℕ)) (h : Hap) (hm : h ∈ labels.map (·.1)) :
+    ∃ i : ℕ, lookupLabel labels h = (i : ℤ) ∧ (h, i) ∈ labels := by
+  rcases lookupLabel_nonneg_or labels h with e | e
+  · exact absurd hm ((lookupLabel_neg_iff labels h).mp e)
+  · exact e
+
+theorem gpPairs_single (labels : List (Hap × ℕ)) (gp : List Hap × ℚ) (hne : gp.1 ≠ [])
+    (hall : ∀ h ∈ gp.1, h ∈ labels.map (·.1)) :
+    gpPairs [gp] labels = [(genotypeIndex (labelledAlleles labels gp.1), gp.2)] := by
+  unfold gpPairs labelledAlleles
+  simp only [List.filterMap_cons, List.filterMap_nil]
+  cases hs : sortInt (gp.1.map (lookupLabel labels)) with
+  | nil =>
+    exfalso
+    have := (sortInt_perm (gp.1.map (lookupLabel labels))).length_eq
+    rw [hs] at this
+    simp at this
+    exact hne (List.length_eq_zero_iff.mp this.symm)
+  | cons x t =>
+    have hx : ¬ x < 0 := by
+      have hm : x ∈ gp.1.map (lookupLabel labels) := (sortInt_perm _).subset (by rw [hs]; simp)
+      obtain ⟨h, hh, rfl⟩ := List.mem_map.mp hm
+      obtain ⟨i, e, _⟩ := lookupLabel_of_mem labels h (hall h hh)
+      rw [e]; omega
+    simp [hx]
+
+theorem gpPairs_single_none (labels : List (Hap × ℕ)) (gp : List Hap × ℚ)
+    (hnot : ¬ ∀ h ∈ gp.1, h ∈ labels.map (·.1)) : gpPairs [gp] labels = [] := by
+  unfold gpPairs
+  simp only [List.filterMap_cons, List.filterMap_nil]
+  cases hs : sortInt (gp.1.map (lookupLabel labels)) with
+  | nil => rfl
+  | cons x t =>
+    have hx : x < 0 := by
+      obtain ⟨h, hh, hn⟩ : ∃ h ∈ gp.1, h ∉ labels.map (·.1) := by
+        by_contra hc
+        apply hnot
+        intro h hh
+        by_contra hn
+        exact hc ⟨h, hh, hn⟩
+      have e := (lookupLabel_neg_iff labels h).mpr hn
+      have hm : (-1 : ℤ) ∈ sortInt (gp.1.map (lookupLabel labels)) :=
+        (sortInt_perm _).symm.subset (List.mem_map.mpr ⟨h, hh, e⟩)
+      have hsorted := sortInt_sorted (gp.1.map (lookupLabel labels))
+      rw [hs] at hm hsorted
+      rcases List.mem_cons.mp hm with e1 | e1
+      · omega
+      · have := (List.pairwise_cons.mp hsorted).1 _ e1; omega
+    simp [hx]
+
+theorem mem_gpPairs (labels : List (Hap × ℕ)) (post : Post) (hne : ∀ gp ∈ post, gp.1 ≠ []) (iv : ℕ × ℚ) :
+    iv ∈ gpPairs post labels ↔ ∃ gp ∈ post, (∀ h ∈ gp.1, h ∈ labels.map (·.1)) ∧
+      iv = (genotypeIndex (labelledAlleles labels gp.1), gp.2) := by
+  induction post with
+  | nil => simp [gpPairs]
+  | cons gp t ih =>
+    rw [gpPairs_cons, List.mem_append, ih (fun x hx => hne x (List.mem_cons_of_mem _ hx))]
+    by_cases hall : ∀ h ∈ gp.1, h ∈ labels.map (·.1)
+    · rw [gpPairs_single labels gp (hne gp (by simp)) hall]
+      simp only [List.mem_cons, List.not_mem_nil, or_false, exists_eq_or_imp]
+      constructor
+      · rintro (e | hx)
+        · exact Or.inl ⟨hall, e⟩
+        · exact Or.inr hx
+      · rintro (⟨_, e⟩ | hx)
+        · exact Or.inl e
+        · exact Or.inr hx
+    · rw [gpPairs_single_none labels gp hall]
+      simp only [List.not_mem_nil, false_or, List.mem_cons, exists_eq_or_imp]
+      constructor
+      · intro hx; exact Or.inr hx
+      · rintro (⟨hh, _⟩ | hx)
+        · exact absurd hh hall
+        · exact hx
+
+theorem labelledAlleles_spec (labels : List (Hap × ℕ)) (g : List Hap) (n : ℕ)
+    (hlt : ∀ hi ∈ labels, hi.2 < n) (hall : ∀ h ∈ g, h ∈ labels.map (·.1)) :
+    (labelledAlleles labels g).length = g.length ∧ (labelledAlleles labels g).Pairwise (· ≤ ·) ∧
+    (∀ x ∈ labelledAlleles labels g, x < n) ∧
+    (labelledAlleles labels g).map (fun i : ℕ => (i : ℤ)) = sortInt (g.map (lookupLabel labels)) := by
+  have hnn : ∀ y ∈ sortInt (g.map (lookupLabel labels)), ∃ i : ℕ, y = (i : ℤ) ∧ i < n := by
+    intro y hy
+    obtain ⟨h, hh, rfl⟩ := List.mem_map.mp ((sortInt_perm _).subset hy)
+    obtain ⟨i, e, hi⟩ := lookupLabel_of_mem labels h (hall h hh)
+    exact ⟨i, e, hlt _ hi⟩
+  unfold labelledAlleles
+  refine ⟨by simp [(sortInt_perm (g.map (lookupLabel labels))).length_eq], ?_, ?_, ?_⟩
+  · rw [List.pairwise_map]
+    exact (sortInt_sorted _).imp (fun {a b} hab => Int.toNat_le_toNat hab)
+  · intro x hx
+    obtain ⟨y, hy, rfl⟩ := List.mem_map.mp hx
+    obtain ⟨i, e, hi⟩ := hnn y hy
+    rw [e]; simpa using hi
+  · rw [List.map_map]
+    conv_rhs => rw [← List.map_id (sortInt (g.map (lookupLabel labels)))]
+    apply List.map_congr_left
+    intro y hy
+    obtain ⟨i, e, _⟩ := hnn y hy
+    simp [e]
+
+theorem perm_of_map_perm_injOn {α β : Type} [DecidableEq α] [DecidableEq β] (f : α → β) (g g' : List α)
+    (hinj : ∀ x ∈ g ++ g', ∀ y ∈ g ++ g', f x = f y → x = y) (hp : (g.map f).Perm (g'.map f)) : g.Perm g' := by
+  rw [List.perm_iff_count]
+  intro x
+  have key : ∀ l : List α, (∀ y ∈ l, y ∈ g ++ g') → x ∈ g ++ g' → l.count x = (l.map f).count (f x) := by
+    intro l hl hx
+    induction l with
+    | nil => simp
+    | cons a t ih =>
+      have iht := ih (fun y hy => hl y (List.mem_cons_of_mem _ hy))
+      rw [List.map_cons, List.count_cons, List.count_cons, iht]
+      by_cases h : a = x
+      · subst h; simp
+      · have : f a ≠ f x := fun e => h (hinj a (hl a (by simp)) x hx e)
+        simp [h, this]
+  by_cases hx : x ∈ g ++ g'
+  · rw [key g (fun y hy => List.mem_append_left _ hy) hx, key g' (fun y hy => List.mem_append_right _ hy) hx]
+    exact hp.count_eq _
+  · rw [List.mem_append, not_or] at hx
+    rw [List.count_eq_zero_of_not_mem hx.1, List.count_eq_zero_of_not_mem hx.2]
+
+/-- two fully labelled genotypes with the same sorted allele numbers are the same multiset of haplotypes -/
+theorem labelledAlleles_inj (labels : List (Hap × ℕ)) (n : ℕ) (g g' : List Hap)
+    (hinj : ∀ h h' i, (h, i) ∈ labels → (h', i) ∈ labels → h = h') (hlt : ∀ hi ∈ labels, hi.2 < n)
+    (hall : ∀ h ∈ g, h ∈ labels.map (·.1)) (hall' : ∀ h ∈ g', h ∈ labels.map (·.1))
+    (he : labelledAlleles labels g = labelledAlleles labels g') : g.Perm g' := by
+  have h1 := (labelledAlleles_spec labels g n hlt hall).2.2.2
+  have h2 := (labelledAlleles_spec labels g' n hlt hall').2.2.2
+  rw [he, h2] at h1
+  have hp : (g.map (lookupLabel labels)).Perm (g'.map (lookupLabel labels)) :=
+    (sortInt_perm _).symm.trans (h1 ▸ sortInt_perm _)
+  apply perm_of_map_perm_injOn (lookupLabel labels) g g' _ hp
+  intro x hx y hy hxy
+  have hxl : x ∈ labels.map (·.1) := by
+    rcases List.mem_append.mp hx with h | h
+    · exact hall x h
+    · exact hall' x h
+  have hyl : y ∈ labels.map (·.1) := by
+    rcases List.mem_append.mp hy with h | h
+    · exact hall y h
+    · exact hall' y h
+  obtain ⟨i, ei, hi⟩ := lookupLabel_of_mem labels x hxl
+  obtain ⟨j, ej, hj⟩ := lookupLabel_of_mem labels y hyl
+  rw [ei, ej] at hxy
+  have : i = j := by exact_mod_cast hxy
+  subst this
+  exact hinj x y i hi hj
+
+/-- **GP entries**: with a label map that is injective and bounded by the allele count `n` used for the array, and a
+    posterior listing distinct (non-permutation-equivalent) genotypes of `ploidy ≥ 1` haplotypes, the array exists, has
+    `C(n + ploidy − 1, ploidy)` entries, holds the probability of every fully labelled genotype at the VCF index of its
+    sorted allele numbers (distinct genotypes never share an index: C11 injectivity) and 0 everywhere else -/
+theorem gp_entry_spec (post : Post) (labels : List (Hap × ℕ)) (ploidy n : ℕ) (hp : 1 ≤ ploidy)
+    (hinj : ∀ h h' i, (h, i) ∈ labels → (h', i) ∈ labels → h = h') (hlt : ∀ hi ∈ labels, hi.2 < n)
+    (hlen : ∀ gp ∈ post, gp.1.length = ploidy)
+    (hdist : post.Pairwise (fun a b => ¬ a.1.Perm b.1)) :
+    ∃ arr, scatter (cwr n ploidy) (gpPairs post labels) = some arr ∧ arr.length = cwr n ploidy ∧
+      (∀ gp ∈ post, (∀ h ∈ gp.1, h ∈ labels.map (·.1)) →
+          arr.getD (genotypeIndex (labelledAlleles labels gp.1)) 0 = gp.2) ∧
+      (∀ j, (∀ gp ∈ post, (∀ h ∈ gp.1, h ∈ labels.map (·.1)) →
+          genotypeIndex (labelledAlleles labels gp.1) ≠ j) → arr.getD j 0 = 0) := by
+  have hne : ∀ gp ∈ post, gp.1 ≠ [] := by
+    intro gp hgp e
+    have := hlen gp hgp
+    rw [e] at this
+    simp at this
+    omega
+  have hbound : ∀ iv ∈ gpPairs post labels, iv.1 < cwr n ploidy := by
+    intro iv hiv
+    obtain ⟨gp, hgp, hall, rfl⟩ := (mem_gpPairs labels post hne iv).mp hiv
+    obtain ⟨hl, _, hb, _⟩ := labelledAlleles_spec labels gp.1 n hlt hall
+    have := C11.index_lt n (labelledAlleles labels gp.1) hb (by rw [hl, hlen gp hgp]; exact hp)
+    rw [hl, hlen gp hgp] at this
+    exact this
+  have hnd : ((gpPairs post labels).map (·.1)).Nodup := by
+    unfold List.Nodup
+    rw [List.pairwise_map]
+    unfold gpPairs
+    apply List.Pairwise.filterMap _ _ (hdist.imp_of_mem (S := fun a b => a ∈ post ∧ b ∈ post ∧ ¬ a.1.Perm b.1)
+      (fun ha hb hr => ⟨ha, hb, hr⟩))
+    intro a a' ⟨ha, ha', hnp⟩ b hb b' hb'
+    -- `b`, `b'` are the pairs of `a`, `a'`
+    have hb1 : b ∈ gpPairs [a] labels := by unfold gpPairs; simp [hb]
+    have hb1' : b' ∈ gpPairs [a'] labels := by unfold gpPairs; simp [hb']
+    obtain ⟨x, hx, hallx, rfl⟩ := (mem_gpPairs labels [a] (by
+      intro y hy; rw [List.mem_singleton.mp hy]; exact hne a ha) b).mp hb1
+    obtain ⟨x', hx', hallx', rfl⟩ := (mem_gpPairs labels [a'] (by
+      intro y hy; rw [List.mem_singleton.mp hy]; exact hne a' ha') b').mp hb1'
+    rw [List.mem_singleton] at hx hx'
+    subst hx hx'
+    intro heq
+    simp only at heq
+    obtain ⟨l1, s1, _, _⟩ := labelledAlleles_spec labels x.1 n hlt hallx
+    obtain ⟨l2, s2, _, _⟩ := labelledAlleles_spec labels x'.1 n hlt hallx'
+    have := C11.index_injective _ _ (by rw [l1, l2, hlen x ha, hlen x' ha']) s1 s2 heq
+    exact hnp (labelledAlleles_inj labels n x.1 x'.1 hinj hlt hallx hallx' this)
+  obtain ⟨out, ho, hol, hov, hoj, _⟩ := scatterFrom_spec (cwr n ploidy) (gpPairs post labels)
+    (List.replicate (cwr n ploidy) 0) (by simp) hbound hnd
+  refine ⟨out, by rw [scatter_eq]; exact ho, hol, ?_, ?_⟩
+  · intro gp hgp hall
+    exact hov _ ((mem_gpPairs labels post hne _).mpr ⟨gp, hgp, hall, rfl⟩)
+  · intro j hj
+    rw [hoj j]
+    · simp only [List.getD_eq_getElem?_getD, List.getElem?_replicate]
+      split <;> rfl
+    · intro hm
+      obtain ⟨iv, hiv, rfl⟩ := List.mem_map.mp hm
+      obtain ⟨gp, hgp, hall, rfl⟩ := (mem_gpPairs labels post hne iv).mp hiv
+      exact hj gp hgp hall rfl
+
+/-- **GP of a sample** (`call_sample_genotypes` after the repair of F3), reference called **or masked**: the array
+    exists, has the record's G cardinality for `1 + #ALT` alleles, holds the probability of every genotype made of
+    labelled haplotypes (all listed ones; without the reference when it is masked) at the VCF index of its allele
+    numbers, 0 elsewhere, and sums to at most the total posterior mass -/
+theorem gp_spec (post : Post) (haps : List Hap) (rc : Bool) (ploidy : ℕ) (hp : 1 ≤ ploidy)
+    (hlen : ∀ gp ∈ post, gp.1.length = ploidy) (hdist : post.Pairwise (fun a b => ¬ a.1.Perm b.1))
+    (hnn : ∀ gp ∈ post, 0 ≤ gp.2) :
+    ∃ arr, sampleGP post haps rc ploidy = some arr ∧
+      arr.length = cwr haps.length ploidy ∧
+      (∀ gp ∈ post, (∀ h ∈ gp.1, h ∈ (labelsOf haps rc).map (·.1)) →
+          arr.getD (genotypeIndex (labelledAlleles (labelsOf haps rc) gp.1)) 0 = gp.2) ∧
+      (∀ j, (∀ gp ∈ post, (∀ h ∈ gp.1, h ∈ (labelsOf haps rc).map (·.1)) →
+          genotypeIndex (labelledAlleles (labelsOf haps rc) gp.1) ≠ j) → arr.getD j 0 = 0) ∧
+      arr.sum ≤ (post.map (·.2)).sum := by
+  have hinj : ∀ h h' i, (h, i) ∈ labelsOf haps rc → (h', i) ∈ labelsOf haps rc → h = h' := by
+    intro h h' i h1 h2
+    have e1 := (label_is_position haps rc h i h1).1
+    have e2 := (label_is_position haps rc h' i h2).1
+    rw [e1] at e2
+    exact Option.some.inj e2
+  have hlt : ∀ hi ∈ labelsOf haps rc, hi.2 < haps.length := by
+    intro hi hm
+    have e1 := (label_is_position haps rc hi.1 hi.2 hm).1
+    by_contra hge
+    rw [List.getElem?_eq_none (by omega)] at e1
+    exact absurd e1 (by simp)
+  obtain ⟨arr, h1, h2, h3, h4⟩ := gp_entry_spec post (labelsOf haps rc) ploidy haps.length hp hinj hlt hlen hdist
+  have hs : sampleGP post haps rc ploidy = some arr := by
+    unfold sampleGP genotypePosteriorAsArray
+    exact h1
+  exact ⟨arr, hs, h2, h3, h4, (gp_sum_le_one post _ ploidy (some haps.length) arr hnn hs).2.2⟩
+
+/-- the labelled haplotypes are the listed ones, minus the reference (first entry) when it is masked -/
+theorem labelled_iff (haps : List Hap) (rc : Bool) (h : Hap) :
+    h ∈ (labelsOf haps rc).map (·.1) ↔ h ∈ (if rc then haps else haps.tail) := by
+  unfold labelsOf
+  cases rc with
+  | true => simp
+  | false =>
+    simp only [Bool.false_eq_true, if_false]
+    cases haps with
+    | nil => simp
+    | cons x t =>
+      rw [List.zipIdx_cons, List.drop_one, List.tail_cons, List.tail_cons]
+      simp
+
+/-- **defect F3 (repaired in the code), machine-checked on its minimal witness**: reference masked, one ALT, diploid,
+    the called genotype homozygous for the ALT.  The label map is `{ALT ↦ 1}`; sized from `len(labels)` (the default
+    `n_alleles=None`, which is what the code did) the array has `C(2,2) = 1` slot and the index of `1/1` is 2 — no result
+    (IndexError); sized from the record's allele count, as `call_sample_genotypes` now asks, it is the 3-entry G array -/
+theorem gp_refmasked_repaired :
+    let haps : List Hap := [[0, 0], [0, 1]]
+    let post : Post := [([[0, 1], [0, 1]], 1)]
+    genotypePosteriorAsArray post (labelsOf haps false) 2 none = none ∧
+    gpPairs post (labelsOf haps false) = [(2, 1)] ∧ cwr (labelsOf haps false).length 2 = 1 ∧
+    sampleGP post haps false 2 = some [0, 0, 1] := by
+  decide +kernel
+
+/-! ### non-vacuity: a concrete two-sample instance -/
+
+example :
+    let s1 : Post := [([[0, 0], [0, 1]], 3 / 4), ([[0, 1], [1, 1]], 1 / 4)]
+    let s2 : Post := [([[0, 1], [0, 1], [1, 0], [1, 0]], 1 / 2), ([[0, 0], [1, 0], [1, 0], [1, 1]], 1 / 2)]
+    callPosteriorHaplotypes (3 / 10) [s1, s2] 2 = ([[0, 0], [1, 0], [0, 1], [1, 1]], true) ∧
+    callPosteriorHaplotypes (3 / 5) [s1, s2] 2 = ([[0, 0], [1, 0], [0, 1]], true) ∧
+    refMasked (4 / 5) [s1, s2] 2 = true ∧
+    (callPosteriorHaplotypes (4 / 5) [s1, s2] 2).1 = [[0, 0], [1, 0], [0, 1]] ∧
+    genotypeAsAlleles [[0, 0], [0, 1]] (labelsOf [[0, 0], [1, 0], [0, 1]] false) = [2, -1] ∧
+    (afpAop s1 2 [[0, 0], [1, 0], [0, 1]]).map (·.1) = [3 / 8, 0, 1 / 2] ∧
+    sampleGP s1 [[0, 0], [1, 0], [0, 1]] true 2 = some [0, 0, 0, 3 / 4, 0, 0] ∧
+    sampleGP s1 [[0, 0], [1, 0], [0, 1]] false 2 = some [0, 0, 0, 0, 0, 0] := by
+  decide +kernel
+
 end MCHap.C13
